@@ -194,6 +194,11 @@ def r12_1_sites(ctx):
                 got = f"<{e}>"
             if got != want:
                 problems.append(f"`{orig.name}` denotes {want!r} but the site loads {got!r} via `{new!r}`"[:220])
+            # the rewritten op stays attributed to the expression of the op it replaces (source maps), one op object per site
+            if new.expr != orig.attrs["expr"]:
+                problems.append(f"`{orig.name}` of {orig.attrs['expr']} is replaced by an op attributed to {new.expr!r}")
+            if sum(1 for x in body if x is new) != 1:
+                problems.append(f"the op object `{new!r}` stands at several sites")
             if isinstance(new, OpVal) and isinstance(want, int) and (new.op == "int"):
                 problems.append("pseudo-op left")
         ctx.check(not problems, "R12.1", construct, "; ".join(problems[:3]), f.where, fact={"in": [o.name for o in ops][:8], "out": [repr(x) for x in out][:10]})
